@@ -177,12 +177,13 @@ class BSeg(Seg):
 class CSeg(Seg):
     """n octets f(off) .. f(off+n-1) of the uninterpreted byte source f (values clipped on read)."""
 
-    __slots__ = ("f", "off", "n")
+    __slots__ = ("f", "off", "n", "filtered_from")
 
     def __init__(self, f, off, n):
         self.f = f
         self.off = off  # z3 Int or python int
         self.n = n  # z3 Int (>= 0 on every feasible path) or python int
+        self.filtered_from = None  # the FilteredSeq these octets are the kept items of (whole segment only)
 
 
 def iexpr(v):
